@@ -47,30 +47,30 @@ func c12PkgFunc(call ssa.CallInstruction, pkg, name string) bool {
 	return o != nil && o.Pkg() != nil && o.Pkg().Path() == pkg && o.Name() == name && o.Type().(*types.Signature).Recv() == nil
 }
 
-// c12IsFieldSlice: v is a slice [lo:hi] of the array field f (hi = -1: open / full length).
-func c12IsFieldSlice(v ssa.Value, f *types.Var, lo, hi int64) bool {
-	sl, ok := v.(*ssa.Slice)
-	if !ok {
+// c12IsFieldSlice: v is (after following helpers' parameters and results) a slice [lo:hi] of the array
+// field f (hi = -1: open / full length).
+func c12IsFieldSlice(x *c04X, fr *c04Frame, v ssa.Value, f *types.Var, lo, hi int64) bool {
+	cv := x.Canon(nil, fr, v)
+	sl, ok := cv.V.(*ssa.Slice)
+	if !ok || !c12Bounds(x, cv.Fr, sl, lo, hi) {
 		return false
 	}
-	fa, ok := sl.X.(*ssa.FieldAddr)
-	if !ok || fieldOfAddr(fa) != f {
-		return false
-	}
-	return c12Bounds(sl, lo, hi)
+	base := x.Canon(nil, cv.Fr, sl.X)
+	fa, ok := base.V.(*ssa.FieldAddr)
+	return ok && fieldOfAddr(fa) == f
 }
 
-func c12Bounds(sl *ssa.Slice, lo, hi int64) bool {
+func c12Bounds(x *c04X, fr *c04Frame, sl *ssa.Slice, lo, hi int64) bool {
 	gotLo, gotHi := int64(0), int64(-1)
 	if sl.Low != nil {
-		v, isC := constInt(sl.Low)
+		v, isC := x.constOf(nil, fr, sl.Low)
 		if !isC {
 			return false
 		}
 		gotLo = v
 	}
 	if sl.High != nil {
-		v, isC := constInt(sl.High)
+		v, isC := x.constOf(nil, fr, sl.High)
 		if !isC {
 			return false
 		}
@@ -79,10 +79,51 @@ func c12Bounds(sl *ssa.Slice, lo, hi int64) bool {
 	return gotLo == lo && gotHi == hi
 }
 
+// c12View is the inlined view of one of the stream functions the C12 rules look at.
+func c12View(c *Ctx, fn *ssa.Function, atomic ...*ssa.Function) (*c04X, *c04Frame) {
+	x := c04NewX(c.Prog, atomic...)
+	return x, x.Root(fn)
+}
+
+type c12Site struct {
+	fr   *c04Frame
+	call ssa.CallInstruction
+}
+
+func (s c12Site) at(st *c04XState, in ssa.Instruction) bool {
+	return in == s.call.(ssa.Instruction) && st.Fr == s.fr
+}
+
+// c12Sites lists the calls satisfying pred in the view.
+func c12Sites(root *c04Frame, pred func(ssa.CallInstruction) bool) []c12Site {
+	var out []c12Site
+	root.Walk(func(fr *c04Frame, in ssa.Instruction) {
+		if call, ok := in.(ssa.CallInstruction); ok && pred(call) {
+			out = append(out, c12Site{fr, call})
+		}
+	})
+	return out
+}
+
+func c12Overflow(c *Ctx, rule string, x *c04X, fn *ssa.Function) {
+	if x.Overflow {
+		c.Undecided(rule, fnName(fn)+"#search", "the inlined control flow of this function is too large to search exhaustively", fn.Pos())
+	}
+}
+
+// c12SuccessTarget: the state is at one of the success returns of the root function.
+func c12SuccessTarget(c *Ctx, x *c04X, fn *ssa.Function) func(*c04XState, ssa.Instruction) bool {
+	tg := c.successTargets(fn)
+	return func(st *c04XState, in ssa.Instruction) bool {
+		_, ok := x.SuccessReturn(st, in, tg)
+		return ok
+	}
+}
+
 // C12-R1: primitives.
 func c12r1(c *Ctx) {
 	const rule = "C12-R1"
-	c.Doc(rule, "primitives: SetSymmetricKey rejects any key length but 32 before aes.NewCipher; SetSymmetricKey and NewStreamWithCryptoState build Stream.gcm with crypto/aes.NewCipher + crypto/cipher.NewGCMWithNonceSize(block, 16) and store exactly that AEAD; the importer's key buffer is 32 bytes; calculateEncryptedSize adds exactly 0 (not encrypting), 16 (tag) or 16+16 (tag + first-frame IV)")
+	c.Doc(rule, "primitives: SetSymmetricKey rejects any key length but 32 before aes.NewCipher; SetSymmetricKey and NewStreamWithCryptoState (with their same-module helpers inlined) build Stream.gcm with crypto/aes.NewCipher + crypto/cipher.NewGCMWithNonceSize(block, 16) and store exactly that AEAD; the importer's key buffer is 32 bytes; calculateEncryptedSize adds exactly 0 (not encrypting), 16 (tag) or 16+16 (tag + first-frame IV)")
 	a := c04Anchors(c, rule)
 	calc := c.needFn(rule, "stream", "(*Stream).calculateEncryptedSize")
 	if !a.ok || calc == nil {
@@ -90,90 +131,81 @@ func c12r1(c *Ctx) {
 	}
 	n := 0
 	for _, fn := range []*ssa.Function{a.ssk, a.imp} {
-		var newCipher, newGCM []ssa.CallInstruction
-		allInstrs(fn, func(_ *ssa.BasicBlock, _ int, in ssa.Instruction) {
-			if call, ok := in.(ssa.CallInstruction); ok {
-				if c12PkgFunc(call, "crypto/aes", "NewCipher") {
-					newCipher = append(newCipher, call)
-				}
-				if c12PkgFunc(call, "crypto/cipher", "NewGCMWithNonceSize") {
-					newGCM = append(newGCM, call)
-				}
-			}
-		})
+		x, root := c12View(c, fn)
+		newCipher := c12Sites(root, func(call ssa.CallInstruction) bool { return c12PkgFunc(call, "crypto/aes", "NewCipher") })
+		newGCM := c12Sites(root, func(call ssa.CallInstruction) bool { return c12PkgFunc(call, "crypto/cipher", "NewGCMWithNonceSize") })
 		if len(newCipher) != 1 || len(newGCM) != 1 {
 			c.Violate(rule, fnName(fn)+"#constructor", fmt.Sprintf("expected one aes.NewCipher and one cipher.NewGCMWithNonceSize call, found %d and %d (cipher.NewGCM would give 12-byte nonces)", len(newCipher), len(newGCM)), fn.Pos())
 			continue
 		}
 		n++
-		g := newGCM[0]
-		ns, isC := constInt(g.Common().Args[1])
-		c.Check(isC && ns == c12NonceLen, rule, fnName(fn)+"#nonce-size", "GCM with 16-byte nonces", fmt.Sprintf("GCM nonce size is %d (constant=%v), the format uses 16-byte nonces", ns, isC), g.Pos())
-		blk, _ := originCall(c12FirstOrigin(fn, g.Common().Args[0]))
-		c.Check(blk == newCipher[0], rule, fnName(fn)+"#gcm<-aes", "the GCM wraps the AES block cipher just created", "the block cipher handed to NewGCMWithNonceSize is not the result of aes.NewCipher", g.Pos())
+		g, nc := newGCM[0], newCipher[0]
+		ns, isC := x.constOf(nil, g.fr, g.call.Common().Args[1])
+		c.Check(isC && ns == c12NonceLen, rule, fnName(fn)+"#nonce-size", "GCM with 16-byte nonces", fmt.Sprintf("GCM nonce size is %d (constant=%v), the format uses 16-byte nonces", ns, isC), g.call.Pos())
+		blkOK := false
+		if o, ok := x.One(nil, g.fr, g.call.Common().Args[0]); ok {
+			blk, _ := originCall(o.V)
+			blkOK = blk == nc.call && o.Fr == nc.fr
+		}
+		c.Check(blkOK, rule, fnName(fn)+"#gcm<-aes", "the GCM wraps the AES block cipher just created", "the block cipher handed to NewGCMWithNonceSize is not the result of aes.NewCipher", g.call.Pos())
 		// the AEAD stored into Stream.gcm is that one
 		stores := 0
-		allInstrs(fn, func(_ *ssa.BasicBlock, _ int, in ssa.Instruction) {
-			st, ok := in.(*ssa.Store)
-			if !ok {
+		root.Walk(func(fr *c04Frame, in ssa.Instruction) {
+			if !storeHit(a.gcm)(in) {
 				return
 			}
-			fa, ok := st.Addr.(*ssa.FieldAddr)
-			if !ok || fieldOfAddr(fa) != a.gcm {
-				return
-			}
+			st := in.(*ssa.Store)
 			stores++
-			oc, idx := originCall(c12FirstOrigin(fn, st.Val))
-			c.Check(oc == g && idx == 0, rule, fnName(fn)+"#Stream.gcm<-NewGCMWithNonceSize", "Stream.gcm is the AEAD just built", "Stream.gcm is assigned something other than the result of NewGCMWithNonceSize", st.Pos())
+			good := false
+			if o, ok := x.One(nil, fr, st.Val); ok {
+				oc, idx := originCall(o.V)
+				good = oc == g.call && o.Fr == g.fr && idx == 0
+			}
+			c.Check(good, rule, fnName(fn)+"#Stream.gcm<-NewGCMWithNonceSize", "Stream.gcm is the AEAD just built", "Stream.gcm is assigned something other than the result of NewGCMWithNonceSize", st.Pos())
 		})
 		if stores == 0 {
 			c.Violate(rule, fnName(fn)+"#Stream.gcm<-NewGCMWithNonceSize", "the AEAD is never stored into Stream.gcm", fn.Pos())
 		}
 		// key length
-		keyArg := newCipher[0].Common().Args[0]
+		keyArg := x.Canon(nil, nc.fr, nc.call.Common().Args[0])
 		if fn == a.ssk {
-			okLen := false
-			for _, b := range fn.Blocks {
-				ifi := blockIf(b)
-				if ifi == nil {
-					continue
-				}
-				at := condAtom(ifi.Cond)
+			// outcome of a test len(key) ==/!= 32: +1 equal, -1 different, 0 not such a test
+			lenTest := func(st *c04XState, at c04XAtom, truth bool) int {
 				if at.Op != token.EQL && at.Op != token.NEQ {
-					continue
+					return 0
 				}
-				call, isLen := c01IsBuiltin(c01Strip(at.X), "len")
-				k, isC := constInt(at.Y)
-				if !isLen || call.Call.Args[0] != keyArg || !isC || k != c12KeyLen {
-					continue
+				lx, k := at.X, at.Y
+				if _, isC := x.constOf(st, at.Fr, k); !isC {
+					lx, k = at.Y, at.X
 				}
-				eq := at.Op == token.EQL
-				if at.Neg {
-					eq = !eq
+				kv, isC := x.constOf(st, at.Fr, k)
+				if !isC || kv != c12KeyLen {
+					return 0
 				}
-				eqE, neE := Edge{b, 0}, Edge{b, 1}
-				if !eq {
-					eqE, neE = neE, eqE
+				lv := x.CanonInt(st, at.Fr, lx)
+				call, isLen := c01IsBuiltin(lv.V, "len")
+				if !isLen || x.Canon(st, lv.Fr, call.Call.Args[0]) != keyArg {
+					return 0
 				}
-				if c.c01ErrorEdge(fn, neE) && instrDominatedByEdge(fn, eqE, newCipher[0]) {
-					okLen = true
+				if (at.Op == token.EQL) == truth {
+					return 1
 				}
+				return -1
 			}
-			c.Check(okLen, rule, fnName(fn)+"#key-length", "keys of any length but 32 are rejected before aes.NewCipher", "no len(key) == 32 test dominates aes.NewCipher: a 16- or 24-byte key would silently select AES-128/192", newCipher[0].Pos())
+			dom, _ := x.Blocked(root.Entry(), &c04XQuery{Target: nc.at, CutCond: func(st *c04XState, at c04XAtom, truth bool) bool { return lenTest(st, at, truth) == 1 }})
+			rej, _ := x.Blocked(root.Entry(), &c04XQuery{Target: c12SuccessTarget(c, x, fn), NeedMark: true, MarkCond: func(st *c04XState, at c04XAtom, truth bool) bool { return lenTest(st, at, truth) == -1 }})
+			c.Check(dom && rej, rule, fnName(fn)+"#key-length", "keys of any length but 32 are rejected before aes.NewCipher", "no len(key) == 32 test dominates aes.NewCipher: a 16- or 24-byte key would silently select AES-128/192", nc.call.Pos())
 		} else {
-			ln := int64(-1)
-			if al, ok := memRoot(keyArg).(*ssa.Alloc); ok {
-				if arr, ok := al.Type().Underlying().(*types.Pointer).Elem().Underlying().(*types.Array); ok {
-					ln = arr.Len()
-				}
-			}
-			c.Check(ln == c12KeyLen, rule, fnName(fn)+"#key-length", "the imported key buffer is 32 bytes", fmt.Sprintf("the imported key buffer is %d bytes, AES-256 needs 32", ln), newCipher[0].Pos())
+			r, _ := x.WholeOf(nil, nc.fr, nc.call.Common().Args[0])
+			ln := c04BufLen(r.V)
+			c.Check(ln == c12KeyLen, rule, fnName(fn)+"#key-length", "the imported key buffer is 32 bytes", fmt.Sprintf("the imported key buffer is %d bytes, AES-256 needs 32", ln), nc.call.Pos())
 		}
+		c12Overflow(c, rule, x, fn)
 	}
 	c.MinCount(rule, "AEAD constructors", n, 2)
 	// size arithmetic
 	if par := c01Param(calc, "plainSize", 1); par != nil {
-		_, adds, ok := c01MaxAddend(calc, par)
+		_, adds, ok := c01MaxAddend(c.Prog, calc, par)
 		if !ok {
 			c.Undecided(rule, fnName(calc)+"#addends", "calculateEncryptedSize does not return its parameter plus constants on every path", calc.Pos())
 		} else {
@@ -187,18 +219,165 @@ func c12r1(c *Ctx) {
 	}
 }
 
-func c12FirstOrigin(fn *ssa.Function, v ssa.Value) ssa.Value {
-	os := origins(fn, v)
-	if len(os) == 1 {
-		return os[0]
-	}
-	return v
+// ---------------------------------------------------------------------------
+// C12-R2: nonce construction.
+
+// c12NonceW lists the writers of one nonce array inside one frame.
+type c12NonceW struct {
+	copies, puts, fulls []ssa.Instruction // base-IV copy, counter word, "both" (a helper that derives the whole nonce)
+	other               bool
 }
 
-// C12-R2: nonce construction.
+// c12Nonce carries what the nonce rule needs to recognise the two writes.
+type c12Nonce struct {
+	c        *Ctx
+	x        *c04X
+	d        c12Dir
+	get, put *types.Func
+	aead     ssa.CallInstruction
+}
+
+// writers classifies every instruction of frame fr that may write the array rooted at root (a local array
+// cell, or a pointer/slice parameter of a helper).
+func (n *c12Nonce) writers(fr *c04Frame, root ssa.Value, depth int) c12NonceW {
+	var w c12NonceW
+	x := n.x
+	allInstrs(fr.Fn, func(_ *ssa.BasicBlock, _ int, in ssa.Instruction) {
+		switch t := in.(type) {
+		case *ssa.Store:
+			if memRoot(t.Addr) != root {
+				return
+			}
+			if t.Addr != root {
+				w.other = true // element store
+				return
+			}
+			// whole-array store: the value must be a nonce derived by a value helper
+			os := x.Origins(nil, fr, t.Val)
+			good := len(os) > 0
+			for _, o := range os {
+				ld, ok := o.V.(*ssa.UnOp)
+				if !ok || ld.Op != token.MUL {
+					good = false
+					break
+				}
+				al, ok := ld.X.(*ssa.Alloc)
+				if !ok || o.Fr == fr || depth > 3 || !n.full(o.Fr, al, depth+1) {
+					good = false
+					break
+				}
+			}
+			if good {
+				w.fulls = append(w.fulls, t)
+			} else {
+				w.other = true
+			}
+		case *ssa.Call:
+			if _, isCopy := c01IsBuiltin(t, "copy"); isCopy {
+				if memRoot(t.Call.Args[0]) != root {
+					return
+				}
+				rootW, _ := x.WholeOf(nil, fr, root)
+				if r, whole := x.WholeOf(nil, fr, t.Call.Args[0]); whole && r == rootW && c12IsFieldSlice(x, fr, t.Call.Args[1], n.d.iv, 0, -1) {
+					w.copies = append(w.copies, t)
+				} else {
+					w.other = true
+				}
+				return
+			}
+			if ssa.CallInstruction(t) == n.aead {
+				return
+			}
+			args := callArgs(t)
+			for i, arg := range args {
+				if memRoot(arg) != root {
+					continue
+				}
+				if types.Object(calleeObj(t)) == types.Object(n.put) && i == len(args)-2 {
+					sl, isSl := arg.(*ssa.Slice)
+					if isSl && c12Bounds(x, fr, sl, 0, c12CtrBytes) && n.word(fr, args[len(args)-1]) {
+						w.puts = append(w.puts, t)
+						continue
+					}
+				}
+				// a helper that is handed the array: it must derive the whole nonce into it, or not write it
+				if k := fr.EnterV(t); k != nil && depth <= 3 && i < len(k.Fn.Params) {
+					sub := n.writers(k, k.Fn.Params[i], depth+1)
+					switch {
+					case !sub.other && len(sub.copies)+len(sub.puts)+len(sub.fulls) == 0:
+						// only reads it
+					case n.fullW(k, sub):
+						w.fulls = append(w.fulls, t)
+					default:
+						w.other = true
+					}
+					continue
+				}
+				w.other = true
+			}
+		}
+	})
+	return w
+}
+
+// full: on every path to every return of the frame's function the array holds base IV + counter word:
+// copied first, counter word afterwards, no other writer.
+func (n *c12Nonce) full(fr *c04Frame, root ssa.Value, depth int) bool {
+	return n.fullW(fr, n.writers(fr, root, depth))
+}
+
+func (n *c12Nonce) fullW(fr *c04Frame, w c12NonceW) bool {
+	if w.other || len(w.copies)+len(w.fulls) == 0 || len(w.puts)+len(w.fulls) == 0 {
+		return false
+	}
+	for _, r := range c04Returns(fr.Fn) {
+		if findPath(entryPoint(fr.Fn), Target{Instr: r}, newCuts().AddInstrs(w.copies...).AddInstrs(w.fulls...)) != nil {
+			return false
+		}
+		if findPath(entryPoint(fr.Fn), Target{Instr: r}, newCuts().AddInstrs(w.puts...).AddInstrs(w.fulls...)) != nil {
+			return false
+		}
+	}
+	return !c12Late(w)
+}
+
+// c12Late: a base-IV copy (or a whole derivation) can follow the counter word.
+func c12Late(w c12NonceW) bool {
+	for _, p := range w.puts {
+		for _, cp := range append(append([]ssa.Instruction{}, w.copies...), w.fulls...) {
+			if findPath(after(p), Target{Instr: cp}, nil) != nil {
+				return true
+			}
+		}
+	}
+	return false
+}
+
+// word: v = BigEndian.Uint32(<iv field>[:4]) + <counter field>, either operand order; the operands may be
+// parameters of a helper or results of value helpers.
+func (n *c12Nonce) word(fr *c04Frame, v ssa.Value) bool {
+	x := n.x
+	cv := x.CanonInt(nil, fr, v)
+	bo, ok := cv.V.(*ssa.BinOp)
+	if !ok || bo.Op != token.ADD {
+		return false
+	}
+	isBase := func(v ssa.Value) bool {
+		b := x.CanonInt(nil, cv.Fr, v)
+		call, ok := b.V.(*ssa.Call)
+		if !ok || types.Object(calleeObj(call)) != types.Object(n.get) {
+			return false
+		}
+		args := callArgs(call)
+		return c12IsFieldSlice(x, b.Fr, args[len(args)-1], n.d.iv, 0, c12CtrBytes)
+	}
+	isCtr := func(v ssa.Value) bool { return readsField(x.CanonInt(nil, cv.Fr, v).V, n.d.ctr) }
+	return (isBase(bo.X) && isCtr(bo.Y)) || (isBase(bo.Y) && isCtr(bo.X))
+}
+
 func c12r2(c *Ctx) {
 	const rule = "C12-R2"
-	c.Doc(rule, "nonce: the nonce argument of Seal (Open) is the whole of a local 16-byte array that is filled by copy(iv[:], encryptIV[:]) (decryptIV) and then overwritten in [:4] by BigEndian.PutUint32(BigEndian.Uint32(encryptIV[:4]) + encryptCounter) (decrypt*), in that order on every path, with no other writer")
+	c.Doc(rule, "nonce: the nonce argument of Seal (Open) is the whole of a local 16-byte array that is filled by copy(iv[:], encryptIV[:]) (decryptIV) and then overwritten in [:4] by BigEndian.PutUint32(BigEndian.Uint32(encryptIV[:4]) + encryptCounter) (decrypt*), in that order on every path, with no other writer; the derivation may sit in a same-module helper that returns the array or fills it through a pointer, provided the helper does exactly that on all its paths with the direction's base IV and counter as arguments")
 	a := c04Anchors(c, rule)
 	put := c.c01BinaryMethod(rule, "BigEndian", "PutUint32")
 	get := c.c01BinaryMethod(rule, "BigEndian", "Uint32")
@@ -209,97 +388,121 @@ func c12r2(c *Ctx) {
 	n := 0
 	for _, d := range dirs {
 		fn := d.fn
-		for _, call := range callsIn(fn, d.aead) {
+		x, root := c12View(c, fn)
+		for _, s := range c12Sites(root, func(call ssa.CallInstruction) bool { _, ok := isCallTo(call, d.aead); return ok }) {
+			call := s.call
 			n++
 			key := fnName(fn) + "#" + d.aead.Name()
-			nonce := call.Common().Args[1]
-			root, isAl := memRoot(nonce).(*ssa.Alloc)
-			if !isAl || !c04WholeOf(nonce, root) {
+			nr, whole := x.WholeOf(nil, s.fr, call.Common().Args[1])
+			arrRoot, isAl := nr.V.(*ssa.Alloc)
+			if !isAl || !whole {
 				c.Undecided(rule, key+"#nonce", "the nonce is not the whole of a local array", call.Pos())
 				continue
 			}
-			arr, _ := root.Type().Underlying().(*types.Pointer).Elem().Underlying().(*types.Array)
+			arr, _ := arrRoot.Type().Underlying().(*types.Pointer).Elem().Underlying().(*types.Array)
 			c.Check(arr != nil && arr.Len() == c12NonceLen, rule, key+"#nonce-length", "16-byte nonce", "the nonce array is not 16 bytes", call.Pos())
-			// writers of the nonce array
-			var copies, puts []ssa.Instruction
-			other := false
-			allInstrs(fn, func(_ *ssa.BasicBlock, _ int, in ssa.Instruction) {
-				switch x := in.(type) {
-				case *ssa.Store:
-					if memRoot(x.Addr) == ssa.Value(root) {
-						other = true
-					}
-				case *ssa.Call:
-					if _, isCopy := c01IsBuiltin(x, "copy"); isCopy {
-						if memRoot(x.Call.Args[0]) != ssa.Value(root) {
-							return
-						}
-						if c04WholeOf(x.Call.Args[0], root) && c12IsFieldSlice(x.Call.Args[1], d.iv, 0, -1) {
-							copies = append(copies, x)
-						} else {
-							other = true
-						}
-						return
-					}
-					if x == call {
-						return
-					}
-					args := callArgs(x)
-					for i, arg := range args {
-						if memRoot(arg) != ssa.Value(root) {
-							continue
-						}
-						if types.Object(calleeObj(x)) == types.Object(put) && i == len(args)-2 {
-							sl, isSl := arg.(*ssa.Slice)
-							if isSl && c12Bounds(sl, 0, c12CtrBytes) && c12NonceWord(fn, args[len(args)-1], get, d) {
-								puts = append(puts, x)
-								continue
-							}
-						}
-						other = true
-					}
+			// the instruction of the array's frame at which the array is consumed
+			var use ssa.Instruction = call
+			for f := s.fr; f != nr.Fr; f = f.Parent {
+				if f == nil || f.Parent == nil {
+					use = nil
+					break
 				}
-			})
-			c.Check(!other, rule, key+"#nonce-writers", "the nonce array is written only by the IV copy and the counter word", "the nonce array has a writer other than copy(iv[:], "+d.iv.Name()+"[:]) and BigEndian.PutUint32(iv[:4], BigEndian.Uint32("+d.iv.Name()+"[:4]) + "+d.ctr.Name()+")", call.Pos())
-			c.mustPassInstr(rule, key+"#nonce<-baseIV", fn, call, newCuts().AddInstrs(copies...), "copy(iv[:], "+d.iv.Name()+"[:])")
-			c.mustPassInstr(rule, key+"#nonce[:4]<-baseWord+counter", fn, call, newCuts().AddInstrs(puts...), "BigEndian.PutUint32(iv[:4], BigEndian.Uint32("+d.iv.Name()+"[:4]) + "+d.ctr.Name()+")")
-			// order: no IV copy after the counter word has been written
-			late := false
-			for _, p := range puts {
-				for _, cp := range copies {
-					if findPath(after(p), Target{Instr: cp}, nil) != nil {
-						late = true
-					}
-				}
+				use = f.Call
 			}
-			c.Check(!late && len(puts) > 0 && len(copies) > 0, rule, key+"#nonce-order", "the counter word is written after the base IV copy", "the base IV can be copied over the counter word (or one of the two is missing): every frame would reuse the base nonce", call.Pos())
+			if use == nil {
+				c.Undecided(rule, key+"#nonce", "the nonce array is made in a helper that does not lead to the "+d.aead.Name()+" call", call.Pos())
+				continue
+			}
+			nn := &c12Nonce{c: c, x: x, d: d, get: get, put: put, aead: call}
+			w := nn.writers(nr.Fr, arrRoot, 0)
+			afn := nr.Fr.Fn
+			c.Check(!w.other, rule, key+"#nonce-writers", "the nonce array is written only by the IV copy and the counter word", "the nonce array has a writer other than copy(iv[:], "+d.iv.Name()+"[:]) and BigEndian.PutUint32(iv[:4], BigEndian.Uint32("+d.iv.Name()+"[:4]) + "+d.ctr.Name()+")", call.Pos())
+			c.mustPassInstr(rule, key+"#nonce<-baseIV", afn, use, newCuts().AddInstrs(w.copies...).AddInstrs(w.fulls...), "copy(iv[:], "+d.iv.Name()+"[:])")
+			c.mustPassInstr(rule, key+"#nonce[:4]<-baseWord+counter", afn, use, newCuts().AddInstrs(w.puts...).AddInstrs(w.fulls...), "BigEndian.PutUint32(iv[:4], BigEndian.Uint32("+d.iv.Name()+"[:4]) + "+d.ctr.Name()+")")
+			// order: no IV copy after the counter word has been written
+			c.Check(!c12Late(w) && len(w.puts)+len(w.fulls) > 0 && len(w.copies)+len(w.fulls) > 0, rule, key+"#nonce-order", "the counter word is written after the base IV copy", "the base IV can be copied over the counter word (or one of the two is missing): every frame would reuse the base nonce", call.Pos())
 		}
+		c12Overflow(c, rule, x, fn)
 	}
 	c.MinCount(rule, "AEAD calls", n, 2)
 }
 
-// c12NonceWord: v = BigEndian.Uint32(<iv field>[:4]) + <counter field>, either operand order.
-func c12NonceWord(fn *ssa.Function, v ssa.Value, get *types.Func, d c12Dir) bool {
-	bo, ok := v.(*ssa.BinOp)
-	if !ok || bo.Op != token.ADD {
-		return false
-	}
-	isBase := func(x ssa.Value) bool {
-		call, ok := x.(*ssa.Call)
-		if !ok || types.Object(calleeObj(call)) != types.Object(get) {
-			return false
+// c12Use is one use of (the address of) an array field found by c12FieldUses.
+type c12Use struct {
+	fr    *c04Frame
+	in    ssa.Instruction
+	v     ssa.Value // the address / slice value used
+	whole bool      // v covers the whole array
+}
+
+// c12FieldUses enumerates how the array field f is used in the inlined view: every instruction that uses the
+// field's address or a slice of it, following the value into same-module helpers it is handed to.
+func c12FieldUses(x *c04X, root *c04Frame, f *types.Var, visit func(u c12Use)) {
+	var follow func(fr *c04Frame, v ssa.Value, whole bool, depth int)
+	follow = func(fr *c04Frame, v ssa.Value, whole bool, depth int) {
+		if depth > 8 || v.Referrers() == nil {
+			return
 		}
-		args := callArgs(call)
-		return c12IsFieldSlice(args[len(args)-1], d.iv, 0, c12CtrBytes)
+		for _, r := range *v.Referrers() {
+			switch u := r.(type) {
+			case *ssa.DebugRef:
+			case *ssa.Slice:
+				if u.X != v {
+					visit(c12Use{fr, u, v, whole})
+					continue
+				}
+				w := whole && (u.Low == nil || isZeroConst(u.Low))
+				if u.High != nil {
+					if hi, isC := x.constOf(nil, fr, u.High); !isC || hi != c12ArrayLen(f) {
+						w = false
+					}
+				}
+				follow(fr, u, w, depth+1)
+			case *ssa.Call:
+				if k := fr.EnterV(u); k != nil {
+					for i, a := range u.Call.Args {
+						if a == v && i < len(k.Fn.Params) {
+							follow(k, k.Fn.Params[i], whole, depth+1)
+						}
+					}
+					continue
+				}
+				visit(c12Use{fr, u, v, whole})
+			default:
+				visit(c12Use{fr, r, v, whole})
+			}
+		}
 	}
-	isCtr := func(x ssa.Value) bool { return readsField(x, d.ctr) }
-	return (isBase(bo.X) && isCtr(bo.Y)) || (isBase(bo.Y) && isCtr(bo.X))
+	root.Walk(func(fr *c04Frame, in ssa.Instruction) {
+		if fa, ok := in.(*ssa.FieldAddr); ok && fieldOfAddr(fa) == f {
+			follow(fr, fa, true, 0)
+		}
+	})
+}
+
+func c12ArrayLen(f *types.Var) int64 {
+	if arr, ok := f.Type().Underlying().(*types.Array); ok {
+		return arr.Len()
+	}
+	return -1
+}
+
+// c12CtrZero: atom a compares the counter field with 0; returns whether the outcome truth means "counter == 0".
+func c12CtrZero(a c04XAtom, ctr *types.Var, truth bool) (zero, ok bool) {
+	if (a.Op != token.EQL && a.Op != token.NEQ) || !readsField(a.X, ctr) {
+		return false, false
+	}
+	if k, isC := constInt(a.Y); !isC || k != 0 {
+		return false, false
+	}
+	return (a.Op == token.EQL) == truth, true
 }
 
 // C12-R3: base IV fresh and sent once.
 func c12r3(c *Ctx) {
 	const rule = "C12-R3"
-	c.Doc(rule, "base IV: Stream.encryptIV is written only by crypto/rand.Read in SetSymmetricKey (error tested; the counter reset and encrypted=true follow its nil-error edge) and by the state importer; encryptDataWithAAD copies encryptIV into the output exactly on the encryptCounter==0 edge and every first-frame path does so; Stream.decryptIV is written only from data[:16] on the decryptCounter==0 edge and by the importer")
+	c.Doc(rule, "base IV: Stream.encryptIV is written only by crypto/rand.Read in SetSymmetricKey (error tested; the counter reset and encrypted=true follow its nil-error edge) and by the state importer; encryptDataWithAAD copies encryptIV into the output exactly on the encryptCounter==0 edge and every first-frame path does so; Stream.decryptIV is written only from data[:16] on the decryptCounter==0 edge and by the importer; same-module helpers of these functions are followed")
 	a := c04Anchors(c, rule)
 	dirs := c12Dirs(c, rule, a)
 	if dirs == nil {
@@ -317,195 +520,200 @@ func c12r3(c *Ctx) {
 		}
 		return wr
 	}
-	c.whoMay(rule, "write Stream.encryptIV", writers(enc.iv), poss, fnSet(a.ssk, a.imp))
-	c.whoMay(rule, "write Stream.decryptIV", writers(dec.iv), poss, fnSet(a.dec, a.imp))
+	c.whoMayDeep(rule, "write Stream.encryptIV", writers(enc.iv), poss, fnSet(a.ssk, a.imp))
+	c.whoMayDeep(rule, "write Stream.decryptIV", writers(dec.iv), poss, fnSet(a.dec, a.imp))
 	n := 0
 	// SetSymmetricKey: the only way encryptIV is written is crypto/rand.Read(encryptIV[:])
-	var randOK []Edge
-	allInstrs(a.ssk, func(_ *ssa.BasicBlock, _ int, in ssa.Instruction) {
-		fa, ok := in.(*ssa.FieldAddr)
-		if !ok || fieldOfAddr(fa) != enc.iv {
-			return
-		}
-		for _, r := range *fa.Referrers() {
-			sl, isSl := r.(*ssa.Slice)
-			if !isSl || !c12Bounds(sl, 0, -1) {
-				if _, isDbg := r.(*ssa.DebugRef); !isDbg {
-					c.Violate(rule, fnName(a.ssk)+"#encryptIV-writer", "encryptIV is accessed other than as the whole-array argument of crypto/rand.Read", r.Pos())
+	{
+		x, root := c12View(c, a.ssk)
+		isRand := func(call ssa.CallInstruction) bool { return c12PkgFunc(call, "crypto/rand", "Read") }
+		randSites := map[ssa.Instruction]bool{}
+		c12FieldUses(x, root, enc.iv, func(u c12Use) {
+			call, isCall := u.in.(ssa.CallInstruction)
+			if isCall && isRand(call) {
+				if !u.whole {
+					c.Violate(rule, fnName(a.ssk)+"#encryptIV-writer", "crypto/rand.Read fills only part of encryptIV", u.in.Pos())
+					return
 				}
+				if !randSites[u.in] {
+					randSites[u.in] = true
+					n++
+				}
+				return
+			}
+			if w, _ := c12UseWrites(u); w {
+				c.Violate(rule, fnName(a.ssk)+"#encryptIV-writer", "encryptIV is filled by something other than crypto/rand.Read (e.g. math/rand or a constant): base IVs could repeat under the same key", u.in.Pos())
+			}
+		})
+		randNil := func(st *c04XState, at c04XAtom, truth bool) bool {
+			isNil, ok := x.AtomCallNil(st, at, truth, func(call ssa.CallInstruction) bool { return randSites[call.(ssa.Instruction)] })
+			return ok && isNil
+		}
+		if n > 0 {
+			checked, _ := x.Blocked(root.Entry(), &c04XQuery{Target: c12SuccessTarget(c, x, a.ssk), CutCond: randNil})
+			c.Check(checked, rule, fnName(a.ssk)+"#rand.Read-error", "the error of crypto/rand.Read is tested", "the error of crypto/rand.Read is ignored: a failed read leaves a zero or stale IV", a.ssk.Pos())
+		}
+		c.MinCount(rule, "crypto/rand.Read(encryptIV[:]) calls in SetSymmetricKey", n, 1)
+		// counter reset and encryption switch-on only with a fresh IV
+		for _, k := range []struct {
+			f   *types.Var
+			key string
+		}{{enc.ctr, "#encryptCounter-reset<-fresh-IV"}, {a.encrypted, "#encrypted=true<-fresh-IV"}} {
+			k := k
+			have := false
+			root.Walk(func(_ *c04Frame, in ssa.Instruction) {
+				if storeHit(k.f)(in) {
+					have = true
+				}
+			})
+			if !have {
 				continue
 			}
-			for _, u := range *sl.Referrers() {
-				call, isCall := u.(ssa.CallInstruction)
-				if !isCall || !c12PkgFunc(call, "crypto/rand", "Read") {
-					c.Violate(rule, fnName(a.ssk)+"#encryptIV-writer", "encryptIV is filled by something other than crypto/rand.Read (e.g. math/rand or a constant): base IVs could repeat under the same key", u.Pos())
-					continue
-				}
-				n++
-				succ, _, checked := callErrEdges(a.ssk, call.Value())
-				c.Check(checked, rule, fnName(a.ssk)+"#rand.Read-error", "the error of crypto/rand.Read is tested", "the error of crypto/rand.Read is ignored: a failed read leaves a zero or stale IV", call.Pos())
-				randOK = append(randOK, succ...)
+			isStore := func(_ *c04XState, in ssa.Instruction) bool { return storeHit(k.f)(in) }
+			if ok, path := x.Blocked(root.Entry(), &c04XQuery{Target: isStore, CutCond: randNil}); ok {
+				c.Ok(rule, fnName(a.ssk)+k.key, "every path to it passes a nil-error crypto/rand.Read into encryptIV", a.ssk.Pos())
+			} else {
+				c.Violate(rule, fnName(a.ssk)+k.key, "reachable without passing a nil-error crypto/rand.Read into encryptIV", a.ssk.Pos(), c.describePath(path)...)
 			}
 		}
-	})
-	c.MinCount(rule, "crypto/rand.Read(encryptIV[:]) calls in SetSymmetricKey", n, 1)
-	// counter reset and encryption switch-on only with a fresh IV
-	cuts := newCuts().AddEdges(randOK...)
-	allInstrs(a.ssk, func(_ *ssa.BasicBlock, _ int, in ssa.Instruction) {
-		st, ok := in.(*ssa.Store)
-		if !ok {
-			return
-		}
-		fa, ok := st.Addr.(*ssa.FieldAddr)
-		if !ok {
-			return
-		}
-		switch fieldOfAddr(fa) {
-		case enc.ctr:
-			c.mustPassInstr(rule, fnName(a.ssk)+"#encryptCounter-reset<-fresh-IV", a.ssk, st, cuts, "a nil-error crypto/rand.Read into encryptIV")
-		case a.encrypted:
-			c.mustPassInstr(rule, fnName(a.ssk)+"#encrypted=true<-fresh-IV", a.ssk, st, cuts, "a nil-error crypto/rand.Read into encryptIV")
-		}
-	})
+		c12Overflow(c, rule, x, a.ssk)
+	}
 	// encrypt: IV goes out exactly on counter == 0
 	{
 		fn := enc.fn
-		var first, notFirst []Edge
-		for _, b := range fn.Blocks {
-			ifi := blockIf(b)
-			if ifi == nil {
-				continue
-			}
-			at := condAtom(ifi.Cond)
-			// the condition may be the comparison itself or a bool computed earlier from it
-			cmp := at
-			if at.Op == token.ILLEGAL {
-				if bo, ok := at.X.(*ssa.BinOp); ok {
-					cmp = condAtom(bo)
-					cmp.Neg = cmp.Neg != at.Neg
-				}
-			}
-			if (cmp.Op != token.EQL && cmp.Op != token.NEQ) || !readsField(cmp.X, enc.ctr) {
-				continue
-			}
-			if k, isC := constInt(cmp.Y); !isC || k != 0 {
-				continue
-			}
-			eq := cmp.Op == token.EQL
-			if cmp.Neg {
-				eq = !eq
-			}
-			if eq {
-				first, notFirst = append(first, Edge{b, 0}), append(notFirst, Edge{b, 1})
-			} else {
-				first, notFirst = append(first, Edge{b, 1}), append(notFirst, Edge{b, 0})
-			}
+		x, root := c12View(c, fn)
+		first := func(_ *c04XState, at c04XAtom, truth bool) bool {
+			z, ok := c12CtrZero(at, enc.ctr, truth)
+			return ok && z
 		}
-		var ivCopies []ssa.Instruction
-		allInstrs(fn, func(_ *ssa.BasicBlock, _ int, in ssa.Instruction) {
+		notFirst := func(_ *c04XState, at c04XAtom, truth bool) bool {
+			z, ok := c12CtrZero(at, enc.ctr, truth)
+			return ok && !z
+		}
+		// copies of the whole base IV into the output buffer (the copy into the nonce array is R2's business)
+		ivCopy := func(st *c04XState, in ssa.Instruction) bool {
 			cp, ok := in.(*ssa.Call)
 			if !ok {
-				return
+				return false
 			}
-			if _, isCopy := c01IsBuiltin(cp, "copy"); !isCopy || !c12IsFieldSlice(cp.Call.Args[1], enc.iv, 0, -1) {
-				return
+			if _, isCopy := c01IsBuiltin(cp, "copy"); !isCopy || !c12IsFieldSlice(x, st.Fr, cp.Call.Args[1], enc.iv, 0, -1) {
+				return false
 			}
-			// the copy into the nonce array is R2's business; here: copies into the output buffer
-			if _, isMS := memRoot(cp.Call.Args[0]).(*ssa.MakeSlice); isMS {
-				ivCopies = append(ivCopies, cp)
+			r, _ := x.WholeOf(st, st.Fr, cp.Call.Args[0])
+			_, isMS := r.V.(*ssa.MakeSlice)
+			return isMS
+		}
+		var ivCopies []c12Site
+		root.Walk(func(fr *c04Frame, in ssa.Instruction) {
+			if ivCopy(&c04XState{Fr: fr, B: in.Block()}, in) {
+				ivCopies = append(ivCopies, c12Site{fr, in.(*ssa.Call)})
 			}
 		})
 		c.MinCount(rule, "copies of encryptIV into the output frame", len(ivCopies), 1)
 		for _, cp := range ivCopies {
-			c.mustPassInstr(rule, fnName(fn)+"#IV-sent=>first-frame", fn, cp, newCuts().AddEdges(first...), "an edge on which encryptCounter == 0")
+			if ok, path := x.Blocked(root.Entry(), &c04XQuery{Target: cp.at, CutCond: first}); ok {
+				c.Ok(rule, fnName(fn)+"#IV-sent=>first-frame", "every path to it passes an edge on which encryptCounter == 0", cp.call.Pos())
+			} else {
+				c.Violate(rule, fnName(fn)+"#IV-sent=>first-frame", "reachable without passing an edge on which encryptCounter == 0", cp.call.Pos(), c.describePath(path)...)
+			}
 			// at offset 0 of the output
-			dst, _ := cp.(*ssa.Call).Call.Args[0].(*ssa.Slice)
-			c.Check(dst == nil || c12Bounds(dst, 0, -1) || c12Bounds(dst, 0, c12NonceLen), rule, fnName(fn)+"#IV-at-offset-0", "the base IV leads the first frame", "the base IV is not written at offset 0 of the first frame", cp.Pos())
+			dst, _ := cp.call.Common().Args[0].(*ssa.Slice)
+			c.Check(dst == nil || c12Bounds(x, cp.fr, dst, 0, -1) || c12Bounds(x, cp.fr, dst, 0, c12NonceLen), rule, fnName(fn)+"#IV-at-offset-0", "the base IV leads the first frame", "the base IV is not written at offset 0 of the first frame", cp.call.Pos())
 		}
 		// first frame => IV sent: no success return without the copy once the counter is 0
 		// (the counter is constant until the increment at the end, so on a first-frame path every
-		// "counter != 0" edge is infeasible: those edges are removed)
-		okAll := len(first) > 0
-		var wit []*ssa.BasicBlock
-		for _, e := range first {
-			for _, t := range c.successTargets(fn) {
-				if p := findPath(Point{e.To(), 0}, t.Target(), newCuts().AddEdges(notFirst...).AddInstrs(ivCopies...)); p != nil {
-					okAll, wit = false, p
+		// "counter != 0" edge is infeasible: those outcomes are removed)
+		okAll, wit := x.Blocked(root.Entry(), &c04XQuery{Target: c12SuccessTarget(c, x, fn), NeedMark: true, MarkCond: first, CutCond: notFirst, CutInstr: ivCopy})
+		tests := 0
+		root.Walk(func(_ *c04Frame, in ssa.Instruction) {
+			if bo, ok := in.(*ssa.BinOp); ok {
+				if _, isT := c12CtrZero(c04XAtom{Op: bo.Op, X: bo.X, Y: bo.Y}, enc.ctr, true); isT {
+					tests++
 				}
 			}
-		}
-		c.Check(okAll, rule, fnName(fn)+"#first-frame=>IV-sent", "every first-frame path prepends the base IV", "a frame can be produced with encryptCounter == 0 without the base IV in front: the peer cannot derive the nonce", fn.Pos(), c.describePath(wit)...)
+		})
+		c.Check(okAll && tests > 0, rule, fnName(fn)+"#first-frame=>IV-sent", "every first-frame path prepends the base IV", "a frame can be produced with encryptCounter == 0 without the base IV in front: the peer cannot derive the nonce", fn.Pos(), c.describePath(wit)...)
+		c12Overflow(c, rule, x, fn)
 	}
 	// decrypt: IV taken from data[:16] exactly on counter == 0
 	{
 		fn := dec.fn
+		x, root := c12View(c, fn)
 		data := c01Param(fn, "data", 1)
-		var first []Edge
-		for _, b := range fn.Blocks {
-			ifi := blockIf(b)
-			if ifi == nil {
-				continue
-			}
-			at := condAtom(ifi.Cond)
-			cmp := at
-			if at.Op == token.ILLEGAL {
-				if bo, ok := at.X.(*ssa.BinOp); ok {
-					cmp = condAtom(bo)
-					cmp.Neg = cmp.Neg != at.Neg
-				}
-			}
-			if (cmp.Op != token.EQL && cmp.Op != token.NEQ) || !readsField(cmp.X, dec.ctr) {
-				continue
-			}
-			if k, isC := constInt(cmp.Y); !isC || k != 0 {
-				continue
-			}
-			eq := cmp.Op == token.EQL
-			if cmp.Neg {
-				eq = !eq
-			}
-			if eq {
-				first = append(first, Edge{b, 0})
-			} else {
-				first = append(first, Edge{b, 1})
-			}
+		first := func(_ *c04XState, at c04XAtom, truth bool) bool {
+			z, ok := c12CtrZero(at, dec.ctr, truth)
+			return ok && z
 		}
 		k := 0
-		allInstrs(fn, func(_ *ssa.BasicBlock, _ int, in ssa.Instruction) {
-			fa, ok := in.(*ssa.FieldAddr)
-			if !ok || fieldOfAddr(fa) != dec.iv {
-				return
+		c12FieldUses(x, root, dec.iv, func(u c12Use) {
+			cp, isCall := u.in.(*ssa.Call)
+			if isCall {
+				if _, isCopy := c01IsBuiltin(cp, "copy"); isCopy && cp.Call.Args[0] == u.v {
+					k++
+					srcOK := false
+					if sv := x.Canon(nil, u.fr, cp.Call.Args[1]); data != nil {
+						if src, isSl := sv.V.(*ssa.Slice); isSl && x.Canon(nil, sv.Fr, src.X) == (c04XV{root, data}) && c12Bounds(x, sv.Fr, src, 0, c12NonceLen) {
+							srcOK = true
+						}
+					}
+					c.Check(srcOK && u.whole, rule, fnName(fn)+"#decryptIV<-data[:16]", "the base IV is the first 16 bytes of the frame", "decryptIV is not taken from the first 16 bytes of the received frame", cp.Pos())
+					site := c12Site{u.fr, cp}
+					if ok, path := x.Blocked(root.Entry(), &c04XQuery{Target: site.at, CutCond: first}); ok {
+						c.Ok(rule, fnName(fn)+"#IV-read=>first-frame", "every path to it passes an edge on which decryptCounter == 0", cp.Pos())
+					} else {
+						c.Violate(rule, fnName(fn)+"#IV-read=>first-frame", "reachable without passing an edge on which decryptCounter == 0", cp.Pos(), c.describePath(path)...)
+					}
+					return
+				}
 			}
-			for _, r := range *fa.Referrers() {
-				sl, isSl := r.(*ssa.Slice)
-				if !isSl {
-					if _, isDbg := r.(*ssa.DebugRef); !isDbg {
-						c.Undecided(rule, fnName(fn)+"#decryptIV-access", "decryptIV is accessed other than through a slice", r.Pos())
-					}
-					continue
-				}
-				for _, u := range *sl.Referrers() {
-					cp, isCall := u.(*ssa.Call)
-					if !isCall {
-						continue
-					}
-					if _, isCopy := c01IsBuiltin(cp, "copy"); isCopy && cp.Call.Args[0] == ssa.Value(sl) {
-						k++
-						src, isSl := cp.Call.Args[1].(*ssa.Slice)
-						c.Check(isSl && data != nil && src.X == ssa.Value(data) && c12Bounds(src, 0, c12NonceLen) && c12Bounds(sl, 0, -1), rule, fnName(fn)+"#decryptIV<-data[:16]", "the base IV is the first 16 bytes of the frame", "decryptIV is not taken from the first 16 bytes of the received frame", cp.Pos())
-						c.mustPassInstr(rule, fnName(fn)+"#IV-read=>first-frame", fn, cp, newCuts().AddEdges(first...), "an edge on which decryptCounter == 0")
-					}
-				}
+			if w, known := c12UseWrites(u); w || !known {
+				c.Undecided(rule, fnName(fn)+"#decryptIV-access", "decryptIV may be written other than by copy(decryptIV[:], data[:16])", u.in.Pos())
 			}
 		})
 		c.MinCount(rule, "writes of decryptIV in decryptDataWithAAD", k, 1)
+		c12Overflow(c, rule, x, fn)
 	}
+}
+
+// c12UseWrites: does the use write through the address/slice? known=false when it cannot be told.
+func c12UseWrites(u c12Use) (write, known bool) {
+	switch t := u.in.(type) {
+	case *ssa.Store:
+		return t.Addr == u.v || t.Val == u.v, true
+	case *ssa.UnOp:
+		return false, true
+	case *ssa.IndexAddr:
+		w, _ := addrUses(t)
+		return w, true
+	case *ssa.Call:
+		cc := t.Common()
+		if b, ok := cc.Value.(*ssa.Builtin); ok {
+			switch b.Name() {
+			case "copy":
+				return len(cc.Args) == 2 && cc.Args[0] == u.v, true
+			case "len", "cap":
+				return false, true
+			case "append":
+				return len(cc.Args) > 0 && cc.Args[0] == u.v, true
+			}
+		}
+		if calleeOnlyReadsSlices(t) {
+			return false, true
+		}
+		if w, _, ok := calleeParamUses(t, u.v, 0); ok {
+			return w, true
+		}
+		return true, false
+	case *ssa.Phi, *ssa.MakeInterface, *ssa.Return, *ssa.MakeClosure:
+		return true, false
+	}
+	return false, true
 }
 
 // C12-R4: monotone counter and wrap guard.
 func c12r4(c *Ctx) {
 	const rule = "C12-R4"
-	c.Doc(rule, "counter: Stream.encryptCounter is written only by SetSymmetricKey (constant 0, with a fresh IV, see R3), the importer and encryptDataWithAAD; in encryptDataWithAAD every path to Seal passes the false edge of encryptCounter == 0xffffffff, every path from Seal to a success return passes the store encryptCounter = encryptCounter + 1, that store is reachable only after Seal, and Seal is not in a cycle; the same (without the wrap guard) for decryptCounter/Open")
+	c.Doc(rule, "counter: Stream.encryptCounter is written only by SetSymmetricKey (constant 0, with a fresh IV, see R3), the importer and encryptDataWithAAD (or helpers only they call); in encryptDataWithAAD (helpers inlined) every path to Seal passes the false edge of encryptCounter == 0xffffffff, every path from Seal to a success return passes the store encryptCounter = encryptCounter + 1, that store is reachable only after Seal, and Seal is not in a cycle; the same (without the wrap guard) for decryptCounter/Open")
 	a := c04Anchors(c, rule)
 	dirs := c12Dirs(c, rule, a)
 	if dirs == nil {
@@ -514,6 +722,7 @@ func c12r4(c *Ctx) {
 	poss := map[*ssa.Function]token.Pos{}
 	n := 0
 	for _, d := range dirs {
+		d := d
 		fn := d.fn
 		var wr []*ssa.Function
 		for _, acc := range c.fieldAccesses(d.ctr) {
@@ -522,128 +731,148 @@ func c12r4(c *Ctx) {
 				poss[acc.Fn] = acc.Instr.Pos()
 			}
 		}
-		c.whoMay(rule, "write Stream."+d.ctr.Name(), wr, poss, fnSet(fn, a.ssk, a.imp))
+		c.whoMayDeep(rule, "write Stream."+d.ctr.Name(), wr, poss, fnSet(fn, a.ssk, a.imp))
 		// SetSymmetricKey stores the constant 0
-		allInstrs(a.ssk, func(_ *ssa.BasicBlock, _ int, in ssa.Instruction) {
-			if st, ok := in.(*ssa.Store); ok {
-				if fa, ok := st.Addr.(*ssa.FieldAddr); ok && fieldOfAddr(fa) == d.ctr {
-					k, isC := constInt(st.Val)
-					c.Check(isC && k == 0, rule, fnName(a.ssk)+"#"+d.ctr.Name()+"=0", "counter restarts at 0 with the new key/IV", "SetSymmetricKey sets "+d.ctr.Name()+" to something other than 0", st.Pos())
+		{
+			x, root := c12View(c, a.ssk)
+			root.Walk(func(fr *c04Frame, in ssa.Instruction) {
+				if storeHit(d.ctr)(in) {
+					k, isC := x.constOf(nil, fr, in.(*ssa.Store).Val)
+					c.Check(isC && k == 0, rule, fnName(a.ssk)+"#"+d.ctr.Name()+"=0", "counter restarts at 0 with the new key/IV", "SetSymmetricKey sets "+d.ctr.Name()+" to something other than 0", in.Pos())
 				}
-			}
-		})
-		calls := callsIn(fn, d.aead)
+			})
+		}
+		x, root := c12View(c, fn)
+		isAEAD := func(call ssa.CallInstruction) bool { _, ok := isCallTo(call, d.aead); return ok }
+		calls := c12Sites(root, isAEAD)
 		if len(calls) != 1 {
 			c.Violate(rule, fnName(fn)+"#"+d.aead.Name()+"-calls", fmt.Sprintf("%d %s calls (expected exactly one per frame: a second call under the same counter reuses the nonce)", len(calls), d.aead.Name()), fn.Pos())
 			continue
 		}
 		n++
-		call := calls[0]
+		site := calls[0]
+		call := site.call
 		key := fnName(fn) + "#" + d.aead.Name()
 		// increments: store of load(ctr)+1
-		var incs []ssa.Instruction
-		allInstrs(fn, func(_ *ssa.BasicBlock, _ int, in ssa.Instruction) {
-			st, ok := in.(*ssa.Store)
-			if !ok {
-				return
+		isInc := func(_ *c04XState, in ssa.Instruction) bool {
+			if !storeHit(d.ctr)(in) {
+				return false
 			}
-			fa, ok := st.Addr.(*ssa.FieldAddr)
-			if !ok || fieldOfAddr(fa) != d.ctr {
-				return
-			}
-			bo, isBO := st.Val.(*ssa.BinOp)
-			one := false
+			bo, isBO := in.(*ssa.Store).Val.(*ssa.BinOp)
 			if isBO && bo.Op == token.ADD && readsField(bo.X, d.ctr) {
 				if k, isC := constInt(bo.Y); isC && k == 1 {
-					one = true
+					return true
 				}
 			}
-			if one {
-				incs = append(incs, st)
+			return false
+		}
+		incs := 0
+		root.Walk(func(_ *c04Frame, in ssa.Instruction) {
+			if !storeHit(d.ctr)(in) {
+				return
+			}
+			if isInc(nil, in) {
+				incs++
 			} else {
-				c.Violate(rule, key+"#counter-store", d.ctr.Name()+" is assigned something other than "+d.ctr.Name()+"+1 in "+fn.Name()+": the nonce sequence may repeat", st.Pos())
+				c.Violate(rule, key+"#counter-store", d.ctr.Name()+" is assigned something other than "+d.ctr.Name()+"+1 in "+fn.Name()+": the nonce sequence may repeat", in.Pos())
 			}
 		})
-		// a counter write inside a closure / deferred function cannot be ordered against the AEAD call
+		// a counter write inside a closure / deferred function that is not called in line cannot be ordered
+		// against the AEAD call
 		inClosure := false
-		for _, g := range withClosures(fn)[1:] {
-			allInstrs(g, func(_ *ssa.BasicBlock, _ int, in ssa.Instruction) {
-				if fa, ok := in.(*ssa.FieldAddr); ok && fieldOfAddr(fa) == d.ctr {
-					if w, _ := addrUses(fa); w {
-						inClosure = true
-					}
+		entered := map[*ssa.Function]bool{}
+		for _, f := range root.Frames() {
+			entered[f.Fn] = true
+		}
+		for _, f := range root.Frames() {
+			for _, g := range withClosures(f.Fn)[1:] {
+				if entered[g] {
+					continue
 				}
-			})
+				allInstrs(g, func(_ *ssa.BasicBlock, _ int, in ssa.Instruction) {
+					if fa, ok := in.(*ssa.FieldAddr); ok && fieldOfAddr(fa) == d.ctr {
+						if w, _ := addrUses(fa); w {
+							inClosure = true
+						}
+					}
+				})
+			}
 		}
 		if inClosure {
 			c.Undecided(rule, key+"#counter-increment-exists", d.ctr.Name()+" is written inside a closure of "+fn.Name()+": its order relative to "+d.aead.Name()+" cannot be followed", call.Pos())
 			continue
 		}
-		c.Check(len(incs) > 0, rule, key+"#counter-increment-exists", "the counter is incremented", d.ctr.Name()+" is never incremented: every frame uses the same nonce", call.Pos())
-		for _, st := range incs {
-			c.mustPassInstr(rule, key+"#increment-after-"+d.aead.Name(), fn, st, newCuts().AddInstrs(call), "the "+d.aead.Name()+" call (a counter value is consumed only by a frame)")
+		c.Check(incs > 0, rule, key+"#counter-increment-exists", "the counter is incremented", d.ctr.Name()+" is never incremented: every frame uses the same nonce", call.Pos())
+		if incs > 0 {
+			if ok, path := x.Blocked(root.Entry(), &c04XQuery{Target: isInc, CutInstr: site.at}); ok {
+				c.Ok(rule, key+"#increment-after-"+d.aead.Name(), "every path to it passes the "+d.aead.Name()+" call (a counter value is consumed only by a frame)", call.Pos())
+			} else {
+				c.Violate(rule, key+"#increment-after-"+d.aead.Name(), "reachable without passing the "+d.aead.Name()+" call (a counter value is consumed only by a frame)", call.Pos(), c.describePath(path)...)
+			}
 		}
 		// from the AEAD call to success: increment on every path
-		succ, _, checked := callErrEdges(fn, call.Value())
-		starts := []Point{after(call)}
-		if checked {
-			starts = nil
-			for _, e := range succ {
-				starts = append(starts, Point{e.To(), 0})
-			}
-		}
-		okAll := true
-		var wit []*ssa.BasicBlock
-		for _, s := range starts {
-			for _, t := range c.successTargets(fn) {
-				if p := findPath(s, t.Target(), newCuts().AddInstrs(incs...)); p != nil {
-					okAll, wit = false, p
+		q := &c04XQuery{Target: c12SuccessTarget(c, x, fn), NeedMark: true, CutInstr: isInc, CutAfterMark: true}
+		if len(errResults(call.Value())) > 0 {
+			// the frame counts once the AEAD call returned no error
+			tested := false
+			q.MarkCond = func(st *c04XState, at c04XAtom, truth bool) bool {
+				isNil, ok := x.AtomCallNil(st, at, truth, func(cl ssa.CallInstruction) bool { return cl == call })
+				if ok {
+					tested = true
 				}
+				return ok && isNil
+			}
+			x.Search(root.Entry(), &c04XQuery{MarkCond: q.MarkCond})
+			if !tested {
+				q.MarkCond = nil
 			}
 		}
+		if q.MarkCond == nil {
+			q.MarkInstr = site.at
+		}
+		okAll, wit := x.Blocked(root.Entry(), q)
 		c.Check(okAll, rule, key+"=>increment", "every frame that is produced/accepted advances the counter", "a success return is reachable after "+d.aead.Name()+" without advancing "+d.ctr.Name()+": the next frame reuses the nonce", call.Pos(), c.describePath(wit)...)
-		c.Check(findPath(after(call), Target{Instr: call}, nil) == nil, rule, key+"#once", "the AEAD call is not in a cycle", d.aead.Name()+" can be reached again within one invocation (same counter, same nonce)", call.Pos())
+		once := true
+		for _, s := range x.Reach(root.Entry(), &c04XQuery{}, site.at) {
+			if x.Search(s.After(), &c04XQuery{Target: site.at}) != nil {
+				once = false
+			}
+		}
+		c.Check(once, rule, key+"#once", "the AEAD call is not in a cycle", d.aead.Name()+" can be reached again within one invocation (same counter, same nonce)", call.Pos())
 		if d.name == "encrypt" {
-			// wrap guard
-			var pass []Edge
-			for _, b := range fn.Blocks {
-				ifi := blockIf(b)
-				if ifi == nil {
-					continue
-				}
-				at := condAtom(ifi.Cond)
+			// wrap guard: outcome of a comparison of the counter with 0xffffffff: +1 below the limit, -1 at the limit
+			guard := func(at c04XAtom, truth bool) int {
 				if at.Op != token.EQL && at.Op != token.NEQ && at.Op != token.GEQ && at.Op != token.LSS {
-					continue
+					return 0
 				}
 				if !readsField(at.X, d.ctr) {
-					continue
+					return 0
 				}
 				k, isC := constInt(at.Y)
 				if !isC || uint64(k) != c12WrapAt {
-					continue
+					return 0
 				}
-				atLimitOnTrue := at.Op == token.EQL || at.Op == token.GEQ
-				if at.Neg {
-					atLimitOnTrue = !atLimitOnTrue
+				atLimit := (at.Op == token.EQL || at.Op == token.GEQ) == truth
+				if atLimit {
+					return -1
 				}
-				lim, below := Edge{b, 0}, Edge{b, 1}
-				if !atLimitOnTrue {
-					lim, below = below, lim
-				}
-				if c.c01ErrorEdge(fn, lim) {
-					pass = append(pass, below)
-				}
+				return 1
 			}
-			c.mustPassInstr(rule, key+"#wrap-guard", fn, call, newCuts().AddEdges(pass...), "the edge on which encryptCounter != 0xffffffff (the other edge being an error return)")
+			below := func(_ *c04XState, at c04XAtom, truth bool) bool { return guard(at, truth) == 1 }
+			limit := func(_ *c04XState, at c04XAtom, truth bool) bool { return guard(at, truth) == -1 }
+			rejects, _ := x.Blocked(root.Entry(), &c04XQuery{Target: c12SuccessTarget(c, x, fn), NeedMark: true, MarkCond: limit})
+			dom, path := x.Blocked(root.Entry(), &c04XQuery{Target: site.at, CutCond: below})
+			if dom && rejects {
+				c.Ok(rule, key+"#wrap-guard", "every path to it passes the edge on which encryptCounter != 0xffffffff (the other edge being an error return)", call.Pos())
+			} else {
+				c.Violate(rule, key+"#wrap-guard", "reachable without passing the edge on which encryptCounter != 0xffffffff (the other edge being an error return)", call.Pos(), c.describePath(path)...)
+			}
 			// the guard reads the counter value that Seal will use: no increment between guard and Seal
-			for _, e := range pass {
-				for _, st := range incs {
-					if findPath(Point{e.To(), 0}, Target{Instr: st}, newCuts().AddInstrs(call)) != nil {
-						c.Violate(rule, key+"#wrap-guard-then-increment", "the counter is incremented between the wrap guard and Seal: the guard tests a stale value", st.Pos())
-					}
-				}
+			if hit := x.Search(root.Entry(), &c04XQuery{Target: isInc, NeedMark: true, MarkCond: below, CutInstr: site.at}); hit != nil {
+				c.Violate(rule, key+"#wrap-guard-then-increment", "the counter is incremented between the wrap guard and Seal: the guard tests a stale value", hit.Instr().Pos())
 			}
 		}
+		c12Overflow(c, rule, x, fn)
 	}
 	c.MinCount(rule, "AEAD call sites", n, 2)
 }
@@ -661,9 +890,15 @@ func c12r5(c *Ctx) {
 	for _, d := range dirs {
 		fn := d.fn
 		hdrPar := c01Param(fn, "frameHeader", 2)
-		for _, call := range callsIn(fn, d.aead) {
-			lay, ok := c04AADLayout(fn, call, d.flag)
-			if !ok || hdrPar == nil {
+		x, root, aeads := c04AADView(c, a, fn, d.aead, d.flag)
+		for _, s := range aeads {
+			call := s.call
+			if hdrPar == nil {
+				c.Undecided(rule, fnName(fn)+"#aad", "no frame header parameter", call.Pos())
+				continue
+			}
+			lay, ok := c04AADLayout(x, root, s.fr, call, d.flag, hdrPar)
+			if !ok {
 				c.Undecided(rule, fnName(fn)+"#aad", "the associated data of "+d.aead.Name()+" is not a locally made buffer filled by copy() at constant offsets", call.Pos())
 				continue
 			}
@@ -677,16 +912,12 @@ func c12r5(c *Ctx) {
 				want := []c04AADPart{{Lo: 0, Hi: -1, Src: "param:" + hdrPar.Name()}}
 				c.Check(c04LayoutIs(br, want) && br.LenConst == 0 && br.LenOfHdr, rule, fnName(fn)+"#later-frame-aad", "later frames authenticate exactly the header",
 					fmt.Sprintf("later-frame AAD is {%s} with length %d+len(header)=%v; the format authenticates exactly the 5-byte header", br.String(), br.LenConst, br.LenOfHdr), call.Pos())
-				_, on := fieldCondEdges(fn, d.flag)
-				dom := false
-				for _, e := range on {
-					if instrDominatedByEdge(fn, e, br.Buf) {
-						dom = true
-					}
-				}
-				c.Check(dom, rule, fnName(fn)+"#later-frame-branch", "header-only AAD is used only once the first frame is past", "the header-only AAD can be used although "+d.flag.Name()+" is still false (the digests would never be bound)", call.Pos())
+				c.Check(br.Later, rule, fnName(fn)+"#later-frame-branch", "header-only AAD is used only once the first frame is past", "the header-only AAD can be used although "+d.flag.Name()+" is still false (the digests would never be bound)", call.Pos())
 			}
 			c.Check(later == 1, rule, fnName(fn)+"#aad-branches", "one later-frame AAD shape", fmt.Sprintf("%d later-frame AAD buffers (expected 1)", later), call.Pos())
+		}
+		if x.Overflow {
+			c.Undecided(rule, fnName(fn)+"#search", "the inlined control flow of this function is too large to search exhaustively", fn.Pos())
 		}
 	}
 	c.MinCount(rule, "later-frame AAD buffers", n, 2)
@@ -695,7 +926,7 @@ func c12r5(c *Ctx) {
 // C12-R6: the header that is authenticated is the header that is sent.
 func c12r6(c *Ctx) {
 	const rule = "C12-R6"
-	c.Doc(rule, "header binding on send: the header slice handed to encryptDataWithAAD is the whole 5-byte header that is copied to the frame, its length word was written from calculateEncryptedSize(len(data)) before the call, the plaintext argument is the data parameter, and the frame is sized header + that same encrypted size")
+	c.Doc(rule, "header binding on send: the header slice handed to encryptDataWithAAD is the whole 5-byte header that is copied to the frame, its length word was written from calculateEncryptedSize(len(data)) before the call, the plaintext argument is the data parameter, and the frame is sized header + that same encrypted size; same-module helpers of sendMessageWithEnd are followed")
 	a := c04Anchors(c, rule)
 	put := c.c01BinaryMethod(rule, "BigEndian", "PutUint32")
 	calc := c.needFn(rule, "stream", "(*Stream).calculateEncryptedSize")
@@ -703,30 +934,43 @@ func c12r6(c *Ctx) {
 		return
 	}
 	fn := a.send
+	x, root := c12View(c, fn, a.enc, a.dec, a.wwc, calc)
 	data := c01Param(fn, "data", 2)
+	dataV := c04XV{root, data}
 	n := 0
-	for _, call := range callsIn(fn, a.enc.Object()) {
+	for _, s := range c12Sites(root, func(call ssa.CallInstruction) bool { return calleeFn(call) == a.enc }) {
+		call := s.call
 		n++
 		args := call.Common().Args // s, data, header
 		key := fnName(fn) + "#encryptDataWithAAD"
-		c.Check(data != nil && args[1] == ssa.Value(data), rule, key+"#plaintext", "the data parameter is encrypted", "the plaintext handed to encryptDataWithAAD is not the data parameter", call.Pos())
-		root := memRoot(args[2])
-		c.Check(c04WholeOf(args[2], root), rule, key+"#header-whole", "the whole header is authenticated", "only part of the header is handed to encryptDataWithAAD", call.Pos())
-		// a PutUint32 of the encrypted size into root[1:5] on every path to the call
-		cuts := newCuts()
-		for _, p := range callsIn(fn, put) {
+		c.Check(data != nil && x.Canon(nil, s.fr, args[1]) == dataV, rule, key+"#plaintext", "the data parameter is encrypted", "the plaintext handed to encryptDataWithAAD is not the data parameter", call.Pos())
+		hroot, whole := x.WholeOf(nil, s.fr, args[2])
+		c.Check(whole, rule, key+"#header-whole", "the whole header is authenticated", "only part of the header is handed to encryptDataWithAAD", call.Pos())
+		// a PutUint32 of the encrypted size into the header on every path to the call
+		isPut := func(st *c04XState, in ssa.Instruction) bool {
+			p, ok := isCallTo(in, put)
+			if !ok {
+				return false
+			}
 			pa := callArgs(p)
-			if memRoot(pa[len(pa)-2]) != root {
-				continue
+			if r, _ := x.WholeOf(st, st.Fr, pa[len(pa)-2]); r != hroot {
+				return false
 			}
-			v := c01Strip(pa[len(pa)-1])
-			if sz, ok := v.(*ssa.Call); ok && calleeFn(sz) == calc {
-				if ln, isLen := c01IsBuiltin(c01Strip(sz.Call.Args[1]), "len"); isLen && data != nil && ln.Call.Args[0] == ssa.Value(data) {
-					cuts.AddInstrs(p)
-				}
+			v := x.CanonInt(st, st.Fr, pa[len(pa)-1])
+			sz, ok := v.V.(*ssa.Call)
+			if !ok || calleeFn(sz) != calc {
+				return false
 			}
+			lv := x.CanonInt(st, v.Fr, sz.Call.Args[1])
+			ln, isLen := c01IsBuiltin(lv.V, "len")
+			return isLen && data != nil && x.Canon(st, lv.Fr, ln.Call.Args[0]) == dataV
 		}
-		c.mustPassInstr(rule, key+"#header-length=encrypted-size", fn, call, cuts, "BigEndian.PutUint32(header[1:5], calculateEncryptedSize(len(data)))")
+		if ok, path := x.Blocked(root.Entry(), &c04XQuery{Target: s.at, CutInstr: isPut}); ok {
+			c.Ok(rule, key+"#header-length=encrypted-size", "every path to it passes BigEndian.PutUint32(header[1:5], calculateEncryptedSize(len(data)))", call.Pos())
+		} else {
+			c.Violate(rule, key+"#header-length=encrypted-size", "reachable without passing BigEndian.PutUint32(header[1:5], calculateEncryptedSize(len(data)))", call.Pos(), c.describePath(path)...)
+		}
 	}
+	c12Overflow(c, rule, x, fn)
 	c.MinCount(rule, "encryptDataWithAAD call sites in sendMessageWithEnd", n, 1)
 }
